@@ -84,9 +84,25 @@ def classify(default, tree):
   return default
 
 
+def identity_on_non_singleton(tree):
+  """Is / IsNot with an operand that is not None / True / False. Whether two equal constants (or two
+  computed values) are the same object is an implementation detail of the Python evaluating them (constant
+  folding, interning), not something a tree can be faithful to: such trees are not judged for their value."""
+  if isinstance(tree, list) and tree:
+    if tree[0] in ('Is', 'IsNot') and len(tree) == 3:
+      r = tree[2]
+      if not (isinstance(r, list) and len(r) == 2 and r[0] == 'Const' and (r[1] is None or r[1] is True or r[1] is False)):
+        return True
+    return any(identity_on_non_singleton(x) for x in tree[1:])
+  return False
+
+
 def judge_tree(acc, M, tree, ref_text, src, what, envs=4):
   """Faithfulness of a returned tree. Returns number of violations reported."""
   detail = {'source': src, 'reference': ref_text, 'tree': repr(tree)[:800], 'what': what}
+  if identity_on_non_singleton(tree):
+    acc.count('skipped_identity_on_non_singleton')
+    envs = 0      # JSON / node-table checks below still apply; the value comparison does not
   why = M.strict_json_roundtrip(tree)
   if why:
     acc.violation(classify('tree_not_json', tree), 'tree of %r is not JSON-serialisable (%s): %r' % (src, why, tree), detail)
